@@ -242,3 +242,10 @@ func copyDirection(c *Ctx, p *Prog, pk *packages.Package, prefix string) int {
 	}
 	return n
 }
+
+
+// c03IndexLoops applies the shared index-loop rule (looprule.go) to the translator package.
+func c03IndexLoops(c *Ctx, p *Prog, pk *packages.Package, min int) {
+	n := indexLoopRule(c, p, pk, nil)
+	c.Min("index-loop-covers-list", "index loops over lists in "+short(pk.PkgPath), n, min)
+}
